@@ -269,13 +269,20 @@ func VH_C10h() {
 		return f
 	}
 	before := snap()
-	op := vsym.Choice("op", 4)
+	op := vsym.Choice("op", 5)
 	if op != 3 {
 		// the router trims slashes at the end of the path: such a key cannot be named in a URL
 		vsym.Assume(k1[kl-1] != '/')
 	}
 	wrote := false
 	switch op {
+	case 4: // copy from the fixed key x, overriding one metadata value
+		r := Do(h, Req{Method: "PUT", Path: "/bkt/" + k1, Header: http.Header{"X-Amz-Copy-Source": {"/bkt/x"}, "X-Amz-Meta-A": {"copied"}}})
+		wrote = r.Code() == 200
+		if wrote && k1 != "x" {
+			got := readObj(b, "bkt", k1)
+			vsym.Assert(got.ok && got.body == "A" && got.meta == "copied", "C10h/copy-stored-under-the-addressed-key")
+		}
 	case 3: // multi-delete naming the key in the request document
 		rq := BodyReq("POST", "/bkt", nil, DeleteBody([]gofakes3.ObjectID{{Key: k1}}, false))
 		rq.Query = url.Values{"delete": {""}}
